@@ -159,7 +159,7 @@ func (d *Document) writeJSONValue(buf *bytes.Buffer, value Value) error {
 			// Remove the extra newline that Encode adds
 			buf.Truncate(buf.Len() - 1)
 		} else {
-			buf.Write(quotes.WrapBytes(d.StringValueContentBytes(value.Ref)))
+			buf.Write(quotes.WrapBytes(escapeControlCharacters(d.StringValueContentBytes(value.Ref))))
 		}
 	case ValueKindList:
 		buf.WriteByte(literal.LBRACK_BYTE)
@@ -217,6 +217,34 @@ func (d *Document) writeJSONValue(buf *bytes.Buffer, value Value) error {
 		return fmt.Errorf("ValueToJSON: not implemented for kind: %s", value.Kind.String())
 	}
 	return nil
+}
+
+// escapeControlCharacters returns the content of a single-line GraphQL string in a form that is valid
+// inside a JSON string. GraphQL and JSON share their escape sequences, so the content is copied as is,
+// but GraphQL allows raw control characters such as TAB as source characters and JSON does not.
+func escapeControlCharacters(content []byte) []byte {
+	clean := true
+	for _, c := range content {
+		if c < 0x20 {
+			clean = false
+			break
+		}
+	}
+	if clean {
+		return content
+	}
+	out := make([]byte, 0, len(content)+8)
+	for _, c := range content {
+		switch {
+		case c == '\t':
+			out = append(out, '\\', 't')
+		case c < 0x20:
+			out = append(out, fmt.Sprintf("\\u%04x", c)...)
+		default:
+			out = append(out, c)
+		}
+	}
+	return out
 }
 
 func (d *Document) ValueToJSON(value Value) ([]byte, error) {
